@@ -151,6 +151,12 @@ def gen_case(rnd, tier, index):
     if not formulas:
         return {'spec': spec, 'cfg': {'workload': 'acyclic', 'site': None}, 'ops': []}
     site = formulas[(index % SITES) % len(formulas)]
+    # cells that some formula only names (an operand of an intersection outside the part that
+    # is read, a ROW()/COLUMN() argument): they fail in the evaluation of a range nobody reads
+    named_only = [a for a in formulas if 'cse' not in dag.cell[a] and any(
+        a in dag.cell[f].get('d', ()) and a not in dag.cell[f].get('p', ()) for f in formulas)]
+    if named_only and rnd.random() < 0.2:
+        site = rnd.choice(named_only)
     empties = [a for a in formulas if ':' in dag.cell[a]['f'] and '(' not in dag.cell[a]['f']
                and 'cse' not in dag.cell[a]]
     if empties and rnd.random() < 0.3:
